@@ -38,8 +38,8 @@ def cmd_text(c):
     op = c["op"]
     if op in ("status", "balloc", "bfree"):
         return "%s %d" % (op, c["arg"])
-    if op == "poll":
-        return "poll " + c["act"]
+    if op in ("poll", "poll2"):
+        return op + " " + c["act"]
     return op
 
 
@@ -292,6 +292,8 @@ def gen_script(rng, be, kind, n):
             a = rng.below(100)
             c = "poll " + ("none" if a < 55 else "stop" if a < 67 else "restart" if a < 79
                            else "block" if a < 96 else "free")
+        elif r < 96:
+            c = "poll2 " + rng.choice(["stop", "block", "free"])
         elif r < 98:
             c = "dispatch" if be == "vloop" else "poll none"
         else:
@@ -316,7 +318,7 @@ def to_history(script, out):
         d = dict(x.split("=") for x in ov.split())
         h.append({"e": f[0],
                   "arg": int(f[1]) if f[0] in ("status", "balloc", "bfree") else 0,
-                  "act": f[1] if f[0] == "poll" else "none",
+                  "act": f[1] if f[0] in ("poll", "poll2") else "none",
                   "a": -1 if d["a"] == "-" else int(d["a"]),
                   "fired": int(d["fired"]),
                   "n": [int(x) for x in d["notif"]],
